@@ -107,7 +107,14 @@ func c18Cases(c runCfg) ([]*scratch.Pkg, []string, map[string]interface{}) {
 					nResp++
 					for vi, p := range vp {
 						gt := pl.gotype
-						if vi == 2 {
+						if vi == 1 && pl.comp != "" {
+							// inlined: the operation's own response type
+							gt = "@Response" + strings.Title(pl.status)
+							if pl.kind == "json" {
+								gt += "JSON"
+							}
+						}
+						if vi == 2 && pl.comp == "" {
 							if n, ok := names[op.o.Method+" "+op.pi.Raw+" "+pl.status]; ok {
 								gt = n + "Response"
 							}
